@@ -46,6 +46,9 @@ def build_pkg(kind, fields):
         src = "(" + ", ".join(s for _, s in fields) + ("," if len(fields) == 1 else "") + ")"
     elif kind == "lst":
         src = "[" + ", ".join(s for _, s in fields) + "]"
+    elif kind == "idic":
+        keys = list(range(len(fields)))
+        src = "{" + ", ".join(f"{k}: {s}" for k, (_, s) in zip(keys, fields)) + "}"
     else:
         src = "{" + ", ".join(f"'{k}': {s}" for k, (_, s) in zip(keys, fields)) + "}"
     return (("P", kind, tuple(zip(keys, (t for t, _ in fields)))), src)
@@ -57,7 +60,9 @@ def projections(ptype, base, style):
     out = []
     _, kind, fs = ptype
     for i, (k, ft) in enumerate(fs):
-        if kind == "dic":
+        if kind == "idic":
+            e = f"{base}[{k}]"
+        elif kind == "dic":
             e = f"{base}['{k}']" if style == 0 else f"{base}.{k}"
         else:
             e = f"{base}[{i}]"
@@ -135,7 +140,7 @@ def chains(rich=False, nested=True, three=True):
     producers = []  # (item type, source of the chain so far)
     nm = Names()
     e = "e"
-    kinds = ("tup", "lst", "dic")
+    kinds = ("tup", "lst", "dic", "idic")
     F = ev_fields(e, nm, rich)
     for kind in kinds:
         for a, b in itertools.permutations(F, 2):
@@ -162,6 +167,10 @@ def chains(rich=False, nested=True, three=True):
                 producers.append((pt, f"SelectMany(ds, lambda {e}: Select({e}.jets, lambda {j}: {src}))"))
         pt, src = build_pkg(kind, [("Jet", j), F[0]])
         producers.append((pt, f"SelectMany(ds, lambda {e}: Select({e}.jets, lambda {j}: {src}))"))
+        # two consecutive SelectMany stages, the innermost sequence packages
+        j4, t4 = nm.fresh("j"), nm.fresh("t")
+        pt, src = build_pkg(kind, [("I", f"{t4}.q"), ("I", f"{j4}.pt")])
+        producers.append((pt, f"SelectMany(SelectMany(ds, lambda {e}: {e}.jets), lambda {j4}: Select({j4}.tr, lambda {t4}: {src}))"))
 
     for pt, psrc in producers:
         for style in ((0, 1) if _has_dict(pt) else (0,)):
